@@ -63,6 +63,10 @@ def gen_one(r, i, tier):
             spec = {"k": "IrregularlyBin", "edges": [0.0, 1.0], "q": g.q(["f", 0]), "value": inner, "nan": {"k": "Count"}}
         if r.random() < 0.4:   # one more level: cousins
             spec = {"k": "Branch", "values": [spec, spec]}
+        if r.random() < 0.25:
+            # a Select at the root: data that fail the selection never reach the cut, yet the tree
+            # below contains the shared node and the fill must be refused all the same
+            spec = {"k": "Select", "q": g.q(["<", ["f", 0], ["c", 1.0]]), "cut": spec}
         pos = [(p, s) for p, s in positions(spec) if p]
         # two distinct positions holding the same spec, neither an ancestor of the other
         cands = [(p1, p2) for p1, s1 in pos for p2, s2 in pos
@@ -80,7 +84,7 @@ def gen_one(r, i, tier):
         # with one of its inner nodes: Branch(h, h.<inner node>).  The new root aliases pool entry 0,
         # so only the (rejected) fills of the new root follow.
         ops = [("new", spec)] + base.fill_ops(0, s[:r.randint(0, 2)])
-        ops.append(("graft", 0, list(p1)))
+        ops.append(("graft", 0, list(p1), r.choice(["branch", "branch", "edlabel", "edindex"])))
         root = 1
         ops += base.fill_ops(root, s)
         if any("q" in s_ for s_ in gen.walk(spec)) and not base.has_kind(spec, ["Average", "Deviate"]):
